@@ -6,12 +6,23 @@ PROPS = "RotoV.Props.C14"
 
 
 def search(ctx):
+    if ctx.impl_violations:
+        # the correspondence run already has concrete failing inputs
+        return
     if ctx.build_harness("c14"):
         ctx.harness("c14", ["run", ctx.seed + 7919, "thorough"], timeout=3000, name="search:c14")
 
 
 def run(ctx):
-    ctx.prove(PROPS, extra_modules=["RotoV.Model.Tarjan", "RotoV.Lemmas.Tarjan", "RotoV.Lemmas.TarjanCtx", "RotoV.Lemmas.TarjanNoPanic"])
+    ctx.extract(["c14emit"])
+    ctx.prove(PROPS, extra_modules=["RotoV.Model.Tarjan", "RotoV.Model.TarjanLir", "RotoV.Lemmas.Tarjan", "RotoV.Lemmas.TarjanCtx", "RotoV.Lemmas.TarjanNoPanic", "RotoV.Lemmas.TarjanLir"])
+    first = (list(ctx.coverage.get("theorems", [])), ctx.coverage.get("nonvacuity_examples", 0), dict(ctx.coverage.get("axioms", {})))
+    # theorems over the generated definitions, in a module of their own: a change
+    # of the emission order / of codegen's loop breaks exactly these
+    ctx.prove(PROPS + "Emit", extra_modules=[])
+    ctx.coverage["theorems"] = first[0] + [t for t in ctx.coverage.get("theorems", []) if t not in first[0]]
+    ctx.coverage["nonvacuity_examples"] = first[1] + (ctx.coverage.get("nonvacuity_examples", 0) if first[0] else 0)
+    ctx.coverage["axioms"] = {**first[2], **ctx.coverage.get("axioms", {})}
     if ctx.build_harness("c14"):
         ctx.harness("c14", ["run", ctx.seed, ctx.tier], timeout=3000)
     ctx.trusted += [
@@ -21,14 +32,21 @@ def run(ctx):
         "order_topological is established per run by the verified checker validOrder on the implementation's real components "
         "(for Tarjan's algorithm itself, totality is proved in general; the order property only on the decided instances)",
         "cranelift-jit's finalize_definitions failing loudly on a call to an undefined function is assumed (modelled as panic)",
-        "edge collection in typechecker/expr.rs is covered by the correspondence run only (8 syntactic shapes x 5 path forms)",
+        "edge collection in typechecker/expr.rs is tied per generated program: the collected graph (hook, after a type-check-only "
+        "pass) must contain exactly the edges of the generated dependency structure (Lean edgesMissing both ways; 13 context "
+        "use-site forms, 6 constant types with 2-5 read forms each, 8 syntactic shapes, 5 path forms, fn / filtermap / test items)",
+        "hand-written model RotoV/Model/TarjanLir.lean of codegen's loop over the lowered item list: tied by the translator target "
+        "c14emit (emission order of Lowerer::program, action sequence of both arms of the define loop) and by running it on the "
+        "hook's item list of every real compilation (must complete; run order = observed initialiser log)",
+        "the bodies of generated clone/drop/eq functions are not modelled, only the symbols every body refers to (hook take_lir)",
     ]
     return ctx.finish(
         level="proof",
         rule="a case is a generated dependency graph (2-9 constants/functions over 4 modules, DAG + function-only cycles, "
-             "or with an injected constant cycle / transitive context use) in one of 4 declaration orders; a class is "
-             "distinct by (expected outcome, observed outcome, #constants, #functions, #edges, function-cycle present, "
-             "#modules used, order variant)",
+             "or with an injected constant cycle / transitive context use; constants of 6 types, context reads in 13 use-site "
+             "forms, local compound values) in one of 4 declaration orders; the first 128 graphs of every run are class "
+             "representatives (form x distance tables); a class is distinct by (expected outcome, observed outcome, #constants, "
+             "#functions, #edges, function-cycle present, #modules used, order variant, compound type present, context form)",
         search=search,
     )
 
